@@ -390,6 +390,12 @@ func (opts *Options) Validate() error {
 	if opts.MaxValueLen <= 0 {
 		return fmt.Errorf("%w: invalid MaxValueLen", ErrInvalidOptions)
 	}
+	if opts.MaxTxEntries > MaxTxEntries {
+		return fmt.Errorf("%w: invalid MaxTxEntries", ErrInvalidOptions)
+	}
+	if uint64(opts.MaxValueLen) > MaxValueLen {
+		return fmt.Errorf("%w: invalid MaxValueLen", ErrInvalidOptions)
+	}
 	if opts.FileSize <= 0 || opts.FileSize >= MaxFileSize {
 		return fmt.Errorf("%w: invalid FileSize", ErrInvalidOptions)
 	}
